@@ -23,7 +23,10 @@ def plan(thorough):
         for nl in range(0, R + 1):
             units.append((kind, 1, "std", ("name",), nl, R))
     for nl in range(0, (3 if thorough else 2) + 1):
-        units.append(("int", 2, "std", ("name",), nl, 3 if thorough else 2))
+        if thorough and nl == 3:
+            units[0:0] = [("int", 2, "std", ("name",), nl, 3, first) for first in range(9)]      # the big unit, split by its first left key
+        else:
+            units.append(("int", 2, "std", ("name",), nl, 3 if thorough else 2))
     units.append(("invalid",))
     return units
 
@@ -57,7 +60,7 @@ def run_unit(unit):
                                     agg.violation(V(f"{method}.expect", "invalid-expect-raises-" + type(e).__name__, case, "SerifValueError", repr(e)[:80]))
         agg.sample({"invalid expect values": [repr(x) for x in INVALID]})
         return agg
-    kind, nkeys, config, forms, nl, maxr = unit
+    kind, nkeys, config, forms, nl, maxr = unit[:6]
     last = None
     for lkeys, rkeys in js.cases(unit):
         if js.all_dtype_rejected(lkeys, rkeys, nkeys):
